@@ -49,12 +49,24 @@ func parseFunctions(p *Prog) []*ssa.Function {
 			continue
 		}
 		res := fn.Signature.Results()
-		if res.Len() == 2 && typeStr(res.At(1).Type()) == "error" {
+		if res.Len() == 2 && typeStr(res.At(1).Type()) == "error" && !higherOrder(fn) {
 			out = append(out, fn)
 		}
 	}
 	sort.Slice(out, func(i, j int) bool { return out[i].Name() < out[j].Name() })
 	return out
+}
+
+// higherOrder: a parse helper parameterised by functions or token lists (e.g. a generic left-associative
+// level); it has no grammar meaning of its own and is inlined at its call sites.
+func higherOrder(fn *ssa.Function) bool {
+	params := fn.Signature.Params()
+	for i := 0; i < params.Len(); i++ {
+		if _, ok := params.At(i).Type().Underlying().(*types.Signature); ok {
+			return true
+		}
+	}
+	return fn.Signature.Variadic() && params.Len() > 0 && fn.Name() != "match"
 }
 
 func NewParseModel(p *Prog, fn *ssa.Function) *ParseModel {
